@@ -7,6 +7,7 @@ package c18
 import (
 	"bytes"
 	"context"
+	"errors"
 	"fmt"
 	"os"
 	"os/exec"
@@ -38,6 +39,14 @@ type Case struct {
 	Expect string `json:"expect,omitempty"`
 	// Inc: contents of the file @DIR@/inc.ank the script may load
 	Inc string `json:"inc,omitempty"`
+	// Fail: (kinds with an output given by construction) the script ends with a run error after
+	// having printed Expect
+	Fail bool `json:"fail,omitempty"`
+	// Never: texts the script sends somewhere else than to standard output (standard error, a
+	// file, a buffer it never prints)
+	Never []string `json:"never,omitempty"`
+	// Tags: class labels decided by the generator
+	Tags []string `json:"tags,omitempty"`
 }
 
 // the probe functions of the generated programs, written in anko itself so that their
@@ -68,8 +77,11 @@ func gen(t *rapid.T) Case {
 		}
 		c.Args = append(c.Args, a)
 	}
-	k := rapid.IntRange(0, 17).Draw(t, "kind")
+	k := rapid.IntRange(0, 18).Draw(t, "kind")
 	switch {
+	case k == 18:
+		c.Kind = "other-streams"
+		genOtherStreams(t, &c)
 	case k == 17:
 		// the TYPES of the bundled packages (the in-process reference shares the package tables with the
 		// command, so the expected output is given by construction)
@@ -226,6 +238,175 @@ func gen(t *rapid.T) Case {
 	return c
 }
 
+// genOtherStreams: a script that, between its prints, sends text to places OTHER than standard output
+// through the bundled packages - standard error (os.Stderr, fmt.Fprint*), the process-wide standard
+// logger of the bundled log package (which Go documents to write to standard error until told
+// otherwise), loggers of its own - and that may re-configure the standard logger (prefix, flags,
+// output: a buffer, a file, standard error and a buffer, standard output); it ends normally or with
+// a run error. The generator follows the logger's state, so the standard output is known by
+// construction: exactly the texts the script sent there, in order.
+func genOtherStreams(t *rapid.T, c *Case) {
+	var src, exp strings.Builder
+	src.WriteString("os = import(\"os\")\nfmt = import(\"fmt\")\nlog = import(\"log\")\nio = import(\"io\")\nbytes = import(\"bytes\")\n")
+	tag := map[string]bool{}
+	dest, prefix, flags := "stderr", "", 3
+	buffered := "" // what the script's buffer holds
+	haveBuf, haveFile := false, false
+	var pendingNever []string // texts in the buffer: they reach standard output only if the script prints the buffer
+	word := func() string {
+		return rapid.SampledFrom([]string{"a", "line", "x y", "é", "100%", ""}).Draw(t, "word")
+	}
+	ensureBuf := func() {
+		if !haveBuf {
+			src.WriteString("buf = bytes.NewBufferString(\"\")\n")
+			haveBuf = true
+		}
+	}
+	n := 9 - rapid.IntRange(1, 7).Draw(t, "nsteps") // mostly long
+	for i := 0; i < n; i++ {
+		// (listed by weight: rapid prefers the front of a list)
+		switch rapid.SampledFrom([]int{7, 2, 0, 9, 3, 1, 7, 5, 8, 4, 6, 0}).Draw(t, "step") {
+		case 0:
+			txt := fmt.Sprintf("out%d %s", i, word())
+			switch rapid.IntRange(0, 2).Draw(t, "print") {
+			case 0:
+				src.WriteString("println(\"" + txt + "\")\n")
+			case 1:
+				src.WriteString("print(\"" + txt + "\\n\")\n")
+			default:
+				src.WriteString("fmt.Println(\"" + txt + "\")\n")
+			}
+			exp.WriteString(txt + "\n")
+		case 1:
+			txt := fmt.Sprintf("err%d %s", i, word())
+			if rapid.Bool().Draw(t, "viafmt") {
+				src.WriteString("fmt.Fprintln(os.Stderr, \"" + txt + "\")\n")
+			} else {
+				src.WriteString("os.Stderr.WriteString(\"" + txt + "\\n\")\n")
+			}
+			c.Never = append(c.Never, txt)
+			tag["streams_stderr_write"] = true
+		case 2, 3, 4:
+			// the standard logger
+			txt := fmt.Sprintf("log%d %s", i, word())
+			line := txt
+			switch rapid.IntRange(0, 2).Draw(t, "logcall") {
+			case 0:
+				src.WriteString("log.Println(\"" + txt + "\")\n")
+			case 1:
+				src.WriteString("log.Print(\"" + txt + "\")\n")
+			default:
+				src.WriteString("log.Printf(\"%s|%d\", \"" + txt + "\", " + fmt.Sprint(i) + ")\n")
+				line = txt + "|" + fmt.Sprint(i)
+			}
+			tag["streams_log_to_"+dest] = true
+			switch dest {
+			case "stdout":
+				exp.WriteString(prefix + line + "\n") // flags are 0 whenever the output is standard output
+			case "buf", "stderr+buf":
+				buffered += prefix + line + "\n"
+				pendingNever = append(pendingNever, txt)
+			default:
+				c.Never = append(c.Never, txt)
+			}
+		case 5:
+			prefix = fmt.Sprintf("pfx%d: ", i)
+			src.WriteString("log.SetPrefix(\"" + prefix + "\")\n")
+			tag["streams_set_prefix"] = true
+		case 6:
+			f := 0
+			if dest == "stderr" || dest == "file" {
+				f = rapid.SampledFrom([]int{0, 3, 1, 7, 16}).Draw(t, "flags") // date, time, microseconds, file name: not predictable
+			}
+			flags = f
+			src.WriteString("log.SetFlags(" + fmt.Sprint(f) + ")\n")
+			tag["streams_set_flags"] = true
+		case 7:
+			// a new output for the standard logger
+			nd := rapid.SampledFrom([]string{"buf", "file", "stderr+buf", "stdout", "stderr"}).Draw(t, "dest")
+			set := ""
+			switch nd {
+			case "buf":
+				ensureBuf()
+				set = "log.SetOutput(buf)\n"
+			case "stderr+buf":
+				ensureBuf()
+				set = "log.SetOutput(io.MultiWriter(os.Stderr, buf))\n"
+			case "file":
+				if !haveFile {
+					src.WriteString("lf, lerr = os.Create(\"@DIR@/script.log\")\n")
+					haveFile = true
+				}
+				set = "log.SetOutput(lf)\n"
+			case "stdout":
+				set = "log.SetOutput(os.Stdout)\n"
+			default:
+				set = "log.SetOutput(os.Stderr)\n"
+			}
+			if nd == "buf" || nd == "stderr+buf" || nd == "stdout" {
+				// what lands there is compared: no time stamps
+				if rapid.Bool().Draw(t, "flagsfirst") {
+					set = "log.SetFlags(0)\n" + set
+				} else {
+					set += "log.SetFlags(0)\n"
+				}
+				flags = 0
+			}
+			src.WriteString(set)
+			dest = nd
+			tag["streams_set_output_"+nd] = true
+		case 8:
+			// a logger of the script's own
+			txt := fmt.Sprintf("own%d %s", i, word())
+			if rapid.Bool().Draw(t, "ownout") {
+				src.WriteString(fmt.Sprintf("l%d = log.New(os.Stdout, \"n%d \", 0)\nl%d.Println(\"%s\")\n", i, i, i, txt))
+				exp.WriteString(fmt.Sprintf("n%d ", i) + txt + "\n")
+				tag["streams_own_logger_stdout"] = true
+			} else {
+				src.WriteString(fmt.Sprintf("l%d = log.New(os.Stderr, \"n%d \", 0)\nl%d.Println(\"%s\")\n", i, i, i, txt))
+				c.Never = append(c.Never, txt)
+				tag["streams_own_logger_stderr"] = true
+			}
+		default:
+			if haveBuf {
+				// the script prints what its buffer holds
+				src.WriteString("print(buf.String())\nbuf.Reset()\n")
+				exp.WriteString(buffered)
+				buffered = ""
+				pendingNever = nil
+				tag["streams_buffer_printed"] = true
+			} else {
+				src.WriteString("println(log.Prefix() + \"|\")\n")
+				exp.WriteString(prefix + "|\n")
+			}
+		}
+	}
+	_ = flags
+	c.Never = append(c.Never, pendingNever...)
+	end := rapid.SampledFrom([]string{"ok", "ok", "throw", "undefined", "index"}).Draw(t, "end")
+	src.WriteString("println(\"last\")\n")
+	exp.WriteString("last\n")
+	switch end {
+	case "throw":
+		src.WriteString("throw \"stop\"\n")
+	case "undefined":
+		src.WriteString("noSuchFunction()\n")
+	case "index":
+		src.WriteString("v = [1, 2]\nprintln(v[5])\n")
+	}
+	c.Fail = end != "ok"
+	if c.Fail {
+		src.WriteString("println(\"not reached\")\n")
+		tag["streams_fails_with_logger_on_"+dest] = true
+	}
+	tag["streams_end_"+end] = true
+	for k := range tag {
+		c.Tags = append(c.Tags, k)
+	}
+	sort.Strings(c.Tags)
+	c.Src, c.Expect = src.String(), exp.String()
+}
+
 func ankoBinary() string {
 	return filepath.Join(filepath.Dir(os.Getenv("VERIF_SCRATCH")), "anko")
 }
@@ -320,6 +501,9 @@ func oracle(c Case, o *h.Obs) *h.Fail {
 	o.Key = c.Mode + "\x00" + strings.Join(c.Args, "\x01") + "\x00" + c.Src
 	o.Class("kind_" + c.Kind)
 	o.Class("mode_" + c.Mode)
+	for _, tg := range c.Tags {
+		o.Class(tg)
+	}
 	bin := ankoBinary()
 	if _, err := os.Stat(bin); err != nil {
 		o.Excluded = "anko binary was not built (harness problem)"
@@ -350,7 +534,7 @@ func oracle(c Case, o *h.Obs) *h.Fail {
 			real = dir
 		}
 		want = inproc{out: strings.ReplaceAll(c.Expect, "@DIR@", real)}
-	} else if c.Kind == "explicit-stdout" {
+	} else if c.Kind == "explicit-stdout" || c.Kind == "other-streams" {
 		f := filepath.Join(dir, "s.ank")
 		os.WriteFile(f, []byte(src), 0o644)
 		if c.Mode == "e" {
@@ -359,6 +543,9 @@ func oracle(c Case, o *h.Obs) *h.Fail {
 			argv = append([]string{f}, c.Args...)
 		}
 		want = inproc{out: c.Expect}
+		if c.Fail {
+			want.err = errors.New("the script ends with a run error by construction")
+		}
 	} else {
 		switch c.Mode {
 		case "directory":
@@ -428,6 +615,16 @@ func oracle(c Case, o *h.Obs) *h.Fail {
 	if code != wantCode {
 		return h.Failf(fmt.Sprintf("C18|exit-status|%s|want%d|got%d", c.Mode, wantCode, code), "%s", detail)
 	}
+	// clauses about scripts that also write elsewhere get signatures of their own
+	ks := ""
+	if c.Kind == "other-streams" {
+		ks = "|other-streams"
+		for _, nv := range c.Never {
+			if strings.Contains(got, nv) {
+				return h.Failf("C18|stdout|text-sent-elsewhere|"+c.Mode, "standard output holds %q, which the script did not print there (it sent it to standard error, to a file, or to a buffer it never printed)\n%s", nv, detail)
+			}
+		}
+	}
 	switch wantCode {
 	case 2:
 		// one diagnostic line and nothing else (its wording is not fixed by the statement)
@@ -436,7 +633,7 @@ func oracle(c Case, o *h.Obs) *h.Fail {
 		}
 	case 0:
 		if canon(got) != canon(want.out) {
-			return h.Failf("C18|stdout|success|"+c.Mode, "%s", detail)
+			return h.Failf("C18|stdout|success|"+c.Mode+ks, "%s", detail)
 		}
 	case 4:
 		// everything the script printed, then ONE diagnostic line; its wording is not fixed by the
@@ -444,12 +641,12 @@ func oracle(c Case, o *h.Obs) *h.Fail {
 		// several lines makes the diagnostic span as many.
 		g, w := canon(got), canon(want.out)
 		if !strings.HasPrefix(g, w) {
-			return h.Failf("C18|stdout|output-before-error|"+c.Mode, "%s", detail)
+			return h.Failf("C18|stdout|output-before-error|"+c.Mode+ks, "%s", detail)
 		}
 		rest := g[len(w):]
 		nl := strings.Count(rest, "\n")
 		if rest == "" || strings.TrimSpace(rest) == "" || !strings.HasSuffix(rest, "\n") || (nl != 1 && nl != 1+strings.Count(want.err.Error(), "\n")) {
-			return h.Failf("C18|stdout|diagnostic-line|"+c.Mode, "after the script's own output the command must print exactly one diagnostic line; it printed %q\n%s", rest, detail)
+			return h.Failf("C18|stdout|diagnostic-line|"+c.Mode+ks, "after the script's own output the command must print exactly one diagnostic line; it printed %q\n%s", rest, detail)
 		}
 		if strings.Contains(rest, "Execute error: ") {
 			o.Class("diagnostic_line_in_todays_wording")
@@ -461,6 +658,6 @@ func oracle(c Case, o *h.Obs) *h.Fail {
 func TestC18(t *testing.T) {
 	c := h.New(t, "C18")
 	defer c.Finish()
-	c.Rule("scripts: programs from the model generator (scopes/control/errors profiles) whose probes are written in anko on top of println, optionally echoing args / using bundled packages; mutated programs (truncated, span deleted, token inserted: mostly parse errors); full-grammar programs after the value-universe prelude (mostly run-time errors; no loops, no goroutines); tiny scripts; a missing file. Supplied as a file with 0-3 trailing arguments or with -e. non-trivial = the script prints >= 2 lines and (fails, or has arguments, or imports a package); distinct by (mode, args, source)")
+	c.Rule("scripts: programs from the model generator (scopes/control/errors profiles) whose probes are written in anko on top of println, optionally echoing args / using bundled packages; mutated programs (truncated, span deleted, token inserted: mostly parse errors); full-grammar programs after the value-universe prelude (mostly run-time errors; no loops, no goroutines); tiny scripts; a missing file; scripts that between their prints write to standard error, log through the bundled log package (standard logger with its prefix / flags / output re-configured, loggers of their own) and end normally or with a run error, standard output given by construction. Supplied as a file with 0-3 trailing arguments or with -e. non-trivial = the script prints >= 2 lines and (fails, or has arguments, or imports a package); distinct by (mode, args, source)")
 	h.Run(c, "cli", c.N(1500, 12000), gen, oracle)
 }
